@@ -28,7 +28,7 @@ NPROC = int(os.environ.get("VERIF_NPROC", os.cpu_count() or 4))
 # property -> engine, budgets (seconds of wall clock per worker), level
 TECH = "deterministic simulation with fault injection: "
 PROPS = {
-    "C01": dict(engine="wire", quick=40, thorough=600, level="exploration", design="DESIGN.md section 4, C01",
+    "C01": dict(engine="wire", engines=["wire", "woven"], quick=40, thorough=600, level="exploration", design="DESIGN.md section 4, C01",
                 text="Seeded search over write-size sequences, read sizes, chunkings (1 byte .. whole bursts, handshake+payload coalesced), latencies, IAT modes, table bias, bridge seeds and task interleavings of a real obfs4 client and server; every Read is compared with a position-coded stream model and completeness is demanded after 10 quiet virtual minutes. Sampling, not proof.",
                 note="Trusted: the simulator (sim/), go1.26.8 testing/synctest, the stream model. Real code: all of transports/obfs4 and what it imports. TCP, clock, entropy and goroutine scheduling at conn operations are simulated.",
                 technique=TECH + "seeded schedule/chunking search, stream-prefix model oracle, quiescence liveness check"),
@@ -40,7 +40,7 @@ PROPS = {
                 text="1-4 sequential or concurrent probers per run (silent, random lengths incl. 8191/8192/8193, truncated/extended/bit-flipped/short-padded valid handshakes, hours outside the window, wrong key / node ID, low-order X', byte-identical replay, floods of 1.25 MiB, early disconnects, pauses beyond 30 s) against one real server factory (and a second factory started from the same identity); oracle on the server-side conn: zero bytes written, close exactly at accept+D with 30 s <= D < 90 s and D identical for all probes of the bridge, input drained until then, prompt return on early disconnect; a conforming control client is answered.",
                 note="Trusted: simulator, reference implementation (crafts the probes). D is never recomputed from the seed. Real code: obfs4 server.",
                 technique=TECH + "adversarial probers on a virtual clock, wire-level oracle on the server-side conn"),
-    "C04": dict(engine="wire", quick=40, thorough=600, level="exploration", design="DESIGN.md section 4, C04",
+    "C04": dict(engine="wire", engines=["wire", "woven"], quick=40, thorough=600, level="exploration", design="DESIGN.md section 4, C04",
                 text="Histories of up to 10 submissions (fresh with hour offset -3..+3, byte-identical replays, 2-4 simultaneous copies) with virtual-time gaps of 0 .. 3 h 10 min and starts within +-2 s of an hour boundary against one real server factory; reference clients verify the reply themselves; model: each blob accepted at most once, fresh blobs accepted iff stamped hour within +-1 of the server hour, reply verifies only under the client's hour, rejected submissions get silence.",
                 note="Trusted: simulator, reference implementation, acceptance model. Monotone clock only; the capacity bound is exercised in C11.",
                 technique=TECH + "history generation against an executable acceptance model on a virtual clock"),
@@ -52,7 +52,7 @@ PROPS = {
                 text="Real client against the independent reference server and reference client against the real server, both bridge-line forms, all IAT modes, padding lengths incl. extremes, hour offsets -1/0/+1, reference-chosen packetisation (split payloads, padding, padding-only and unknown-type packets), all chunkings; the reference must accept and decode everything the real side emits (layout, ranges, zero padding, unpadded seed frame equal to the bridge seed) and the real side must deliver everything the reference sends.",
                 note="Residual risk: a misunderstanding shared by the reference (written from the property text and protocol document) and the code. No known-answer vectors exist offline.",
                 technique=TECH + "two-party interop against an independent reference implementation under seeded segmentation"),
-    "C09": dict(engine="wire", quick=40, thorough=600, level="exploration", design="DESIGN.md section 4, C09",
+    "C09": dict(engine="wire", engines=["wire", "woven"], quick=40, thorough=600, level="exploration", design="DESIGN.md section 4, C09",
                 text="Real client and server with a wire monitor under every underlying Write; random and directed bridge seeds (tables {0}, {1448}, {4}, {34}, {1428}, {1275,0}), directed application write sizes putting the burst tail at target-23..target+2, all IAT modes and both bias settings; oracle from an independently derived table: burst length obeys the padding rule for some target, IAT writes <= 1448, paranoid writes are non-zero table values (1448 accepted when the table contains 0), client bursts checked against the server's table once it has delivered server payload; every Write terminates, no panic.",
                 note="Trusted: simulator, reference DRBG/table derivation. The all-pairs arithmetic of the quantifier is sampled through the API, not enumerated.",
                 technique=TECH + "wire-size monitor against an independently derived seeded table"),
@@ -68,7 +68,7 @@ PROPS = {
                 text="Histories of up to 6 steps (connect, 7-day jumps, hour jumps, ticket-file deletion, restart = new factory on the same simulated disk) of the real ScrambleSuit client against a reference server: reply padding 0..1308 incl. extremes, the reply split at every byte position from the end of the key to its last byte (mark and MAC favoured), control packets and first data coalesced behind the reply, all chunkings, wrong secret, single-bit tampering of every reply field and of data packets, ticket issue; oracle: Dial completes for every split, streams exact and complete after 10 quiet virtual minutes, tampering surfaces as an error with no altered data, every ticket seen by the server at most once, wrong secret / tampered reply fail within 60 s.",
                 note="The ScrambleSuit reference server (sim/ref/obfsref/ss.go) follows the published protocol from memory; it is the least independent reference. Tickets live on the simulated disk (os -> simos).",
                 technique=TECH + "history generation with response-split enumeration, tampering faults and a ticket-use model on a virtual clock and disk"),
-    "C16": dict(engine="wire", quick=40, thorough=600, level="exploration", design="DESIGN.md section 4, C16",
+    "C16": dict(engine="wire", engines=["wire", "woven"], quick=40, thorough=600, level="exploration", design="DESIGN.md section 4, C16",
                 text="The real meek_lite client (real net/http transport over the simulated network, runtime select order from the seeded seam) against a reference HTTP/1.1 server that records bodies, session ids and overlap and answers 200 with tape-sized slices (empty, small, partial, full 64 KiB) of a position-coded downstream stream; application writes of 1 byte .. 3 x 65536 with pauses up to 7 s (so the 100 ms .. 5 s poll back-off runs), Close at a tape-chosen instant; oracle: request bodies in order are exactly the written stream (complete after 20 quiet virtual minutes if not closed), Read delivers exactly the response bodies, bodies <= 65536, one session id, never two requests in flight, after Close Write fails, Read fails after a bounded drain, at most one more request and none in the following hour.",
                 note="net/http's internal goroutines are not named tasks; they meet the simulation only through simnet operations. Fault-free server only (non-200 / dropped connections are exercised in C10).",
                 technique=TECH + "reference HTTP server with conservation oracle under seeded scheduling, select order and virtual-time polling"),
@@ -98,8 +98,13 @@ ENGINES = {
     # name -> dict(src: dir under harness/, pkg: (virtual) package dir inside the repo module, weave: file specs for /verif/weave)
     "wire": dict(src="wire", pkg="zz_verif/wire"),
     "relay": dict(src="relay", pkg="obfs4proxy"),
-    "woven": dict(src="woven", pkg="zz_verif/woven", weave=[
+    "woven": dict(src="woven", include=["wire"], pkg="zz_verif/woven", weave=[
         dict(path="common/replayfilter/replay_filter.go", yields=True, go=True, sync=True),
+        dict(path="common/probdist/weighted_dist.go", yields=True, go=True, sync=True),
+        dict(path="transports/obfs4/obfs4.go", yields=True, go=True),
+        dict(path="transports/obfs4/packet.go", yields=True, go=True),
+        dict(path="transports/obfs4/handshake_ntor.go", yields=True, go=True),
+        dict(path="transports/meeklite/meek.go", yields=True, go=True, sync=True),
     ]),
     "disk": dict(src="disk", pkg="zz_verif/disk", weave=[
         dict(path="transports/obfs4/statefile.go", os=True),
@@ -182,10 +187,11 @@ def run_weave(bd, engine, specs):
 def gen_overlay(bd, engine):
     e = ENGINES[engine]
     rep = dict(rt_overlay())
-    srcdir = os.path.join(VERIF, "harness", e["src"])
-    for f in sorted(os.listdir(srcdir)):
-        if f.endswith(".go"):
-            rep[os.path.join(REPO, e["pkg"], f)] = os.path.join(srcdir, f)
+    for src in e.get("include", []) + [e["src"]]:
+        srcdir = os.path.join(VERIF, "harness", src)
+        for f in sorted(os.listdir(srcdir)):
+            if f.endswith(".go"):
+                rep[os.path.join(REPO, e["pkg"], f)] = os.path.join(srcdir, f)
     if e.get("weave"):
         rep.update(run_weave(bd, engine, e["weave"]))
     path = os.path.join(bd, "overlay-%s.json" % engine)
@@ -222,7 +228,12 @@ def check(prop, tier, seed):
         die("unknown property " + prop)
     cfg = PROPS[prop]
     t0 = time.time()
-    binary, build_s = build_engine(cfg["engine"])
+    engines = cfg.get("engines") or [cfg["engine"]]
+    binaries, build_s = [], 0.0
+    for e in engines:
+        b, s_ = build_engine(e)
+        binaries.append(b)
+        build_s += s_
     budget = int(os.environ.get("VERIF_BUDGET_S", cfg[tier]))
     bd = repo_build_dir()
     outdir = os.path.join(bd, "out-%s" % prop)
@@ -233,7 +244,9 @@ def check(prop, tier, seed):
     nw = NPROC
     for w in range(nw):
         out = os.path.join(outdir, "w%d.json" % w)
-        env = worker_env(prop, seed, tier, VERIF_FROM=w, VERIF_STRIDE=nw, VERIF_BUDGET_S=budget, VERIF_OUT=out)
+        env = worker_env(prop, seed, tier, VERIF_FROM=w, VERIF_STRIDE=nw, VERIF_BUDGET_S=budget, VERIF_OUT=out,
+                         VERIF_ENGINE=engines[w % len(engines)])
+        binary = binaries[w % len(engines)]
         if "VERIF_MAXRUNS" in os.environ:
             env["VERIF_MAXRUNS"] = os.environ["VERIF_MAXRUNS"]
         log = open(os.path.join(outdir, "w%d.log" % w), "w")
@@ -355,12 +368,13 @@ def replay_file(path, quiet=False):
     rf = json.load(open(path))
     prop = rf["property"]
     cfg = PROPS[prop]
-    binary, _ = build_engine(cfg["engine"])
+    engine = rf.get("engine") or cfg["engine"]
+    binary, _ = build_engine(engine)
     bd = repo_build_dir()
     out = os.path.join(bd, "replay-out.json")
     if os.path.exists(out):
         os.remove(out)
-    env = worker_env(prop, rf["seed"], rf.get("tier", "quick"), VERIF_REPLAY=os.path.abspath(path), VERIF_OUT=out)
+    env = worker_env(prop, rf["seed"], rf.get("tier", "quick"), VERIF_REPLAY=os.path.abspath(path), VERIF_OUT=out, VERIF_ENGINE=engine)
     if not quiet:
         env["VERIF_TRACE"] = "1"
     r = run([binary, "-test.run", "^TestVerif$", "-test.timeout", "0", "-test.cpu", "1"], cwd=bd, env=env,
@@ -388,34 +402,35 @@ def selftest(props, seeds=40, reps=3):
     processes and GOMAXPROCS values."""
     total_bad = 0
     for prop in props:
-        bad = 0
         cfg = PROPS[prop]
-        binary, _ = build_engine(cfg["engine"])
-        bd = repo_build_dir()
-        ref = None
-        procs = []
-        for i, gmp in enumerate([1, 4, 16] * reps):
-            out = os.path.join(bd, "selftest-%s-%d.json" % (prop, i))
-            env = worker_env(prop, 7, "quick", VERIF_FROM=0, VERIF_STRIDE=1, VERIF_MAXRUNS=seeds, VERIF_BUDGET_S=600,
-                             VERIF_OUT=out, GOMAXPROCS=gmp, VERIF_KNOWN="/nonexistent", VERIF_MAXVIOL=1000000,
-                             VERIF_SHRINK_TRIES=0, VERIF_REPLAY_DIR=os.path.join(bd, "selftest-replays"))
-            p = subprocess.Popen([binary, "-test.run", "^TestVerif$", "-test.timeout", "0"], cwd=bd, env=env,
-                                 stdout=subprocess.DEVNULL, stderr=subprocess.DEVNULL)
-            procs.append((p, out, gmp))
-        for p, out, gmp in procs:
-            p.wait()
-            r = json.load(open(out))
-            sig = (r["runs"], tuple(r["hashes"]), r["steps"], r["vtime_ns"])
-            if ref is None:
-                ref = sig
-            elif sig != ref:
-                bad += 1
-                print("NONDETERMINISM %s: GOMAXPROCS=%d differs (%d vs %d distinct logs, steps %d vs %d)" % (
-                    prop, gmp, len(sig[1]), len(ref[1]), sig[2], ref[2]))
-            os.remove(out)
-        shutil.rmtree(os.path.join(bd, "selftest-replays"), ignore_errors=True)
-        print("selftest %s: %d processes x %d runs, %s" % (prop, len(procs), seeds, "IDENTICAL" if bad == 0 else "DIFFER"))
-        total_bad += bad
+        for engine in (cfg.get("engines") or [cfg["engine"]]):
+            bad = 0
+            binary, _ = build_engine(engine)
+            bd = repo_build_dir()
+            ref = None
+            procs = []
+            for i, gmp in enumerate([1, 4, 16] * reps):
+                out = os.path.join(bd, "selftest-%s-%s-%d.json" % (prop, engine, i))
+                env = worker_env(prop, 7, "quick", VERIF_FROM=0, VERIF_STRIDE=1, VERIF_MAXRUNS=seeds, VERIF_BUDGET_S=600,
+                                 VERIF_OUT=out, GOMAXPROCS=gmp, VERIF_KNOWN="/nonexistent", VERIF_MAXVIOL=1000000,
+                                 VERIF_SHRINK_TRIES=0, VERIF_REPLAY_DIR=os.path.join(bd, "selftest-replays"), VERIF_ENGINE=engine)
+                p = subprocess.Popen([binary, "-test.run", "^TestVerif$", "-test.timeout", "0"], cwd=bd, env=env,
+                                     stdout=subprocess.DEVNULL, stderr=subprocess.DEVNULL)
+                procs.append((p, out, gmp))
+            for p, out, gmp in procs:
+                p.wait()
+                r = json.load(open(out))
+                sig = (r["runs"], tuple(r["hashes"]), r["steps"], r["vtime_ns"])
+                if ref is None:
+                    ref = sig
+                elif sig != ref:
+                    bad += 1
+                    print("NONDETERMINISM %s/%s: GOMAXPROCS=%d differs (%d vs %d distinct logs, steps %d vs %d)" % (
+                        prop, engine, gmp, len(sig[1]), len(ref[1]), sig[2], ref[2]))
+                os.remove(out)
+            shutil.rmtree(os.path.join(bd, "selftest-replays"), ignore_errors=True)
+            print("selftest %s on %s: %d processes x %d runs, %s" % (prop, engine, len(procs), seeds, "IDENTICAL" if bad == 0 else "DIFFER"))
+            total_bad += bad
     return 2 if total_bad else 0
 
 
@@ -464,7 +479,7 @@ def gen_manifest():
             "technique": c["technique"],
         })
     m["engines"] = [{"name": e, "path": "harness/" + ENGINES[e]["src"],
-                     "serves_properties": sorted(p for p in PROPS if PROPS[p]["engine"] == e),
+                     "serves_properties": sorted(p for p in PROPS if e in (PROPS[p].get("engines") or [PROPS[p]["engine"]])),
                      "kind_free_text": ENGINE_KIND.get(e, "")} for e in sorted(ENGINES)]
     na = []
     for i in range(1, 21):
